@@ -599,6 +599,14 @@ COMPONENT_CASES = [
     ('reset', 'teleport', {'shape': [6, 6]}),
     ('reset', 'memory', {'shape': [7, 7], 'colors': ['RED', 'BLUE']}),
     ('reset', 'memory_rooms', {'shape': [9, 9], 'layout': [2, 2], 'colors': ['RED', 'BLUE', 'GREEN'], 'num_beacons': 1, 'num_exits': 2}),
+    # user-registered components with optional parameters (no built-in transition / terminating function has one)
+    ('transition', 'gvsim.probe_components:probe_repeated_turn', {'repeats': 2}),
+    ('transition', 'gvsim.probe_components:probe_repeated_turn', {}),
+    ('transition', 'gvsim.probe_components:probe_repeated_turn', {'repeats': 3}),
+    ('reward', 'gvsim.probe_components:probe_scaled_living', {'scale': 2.5}),
+    ('reward', 'gvsim.probe_components:probe_scaled_living', {'reward': 0.5, 'scale': -2.0}),
+    ('terminating', 'gvsim.probe_components:probe_facing', {'heading': 'L'}),
+    ('terminating', 'gvsim.probe_components:probe_facing', {}),
     # optional parameters given without the ones declared before them
     ('reset', 'empty', {'shape': [5, 6], 'random_exit': True}),
     ('reset', 'empty', {'shape': [6, 5], 'random_exit': False}),
